@@ -71,6 +71,8 @@ class ExprMixin:
         if e.id == "self" and fr.self_val is not None:
             return [(st, fr.self_val)]
         try:
+            if self._filled_at_module_level(fr.func.module, e.id):
+                raise ValueError("a table filled by module-level statements is not the constant its first binding shows")
             c = self.prog.const_value(fr.func.module, e.id)
             return [(st, self.lift(c, st))]
         except ValueError:
@@ -106,7 +108,7 @@ class ExprMixin:
         val = nodes[0].value
         pure = (ast.Tuple, ast.List, ast.Dict, ast.Name, ast.Constant, ast.BinOp, ast.UnaryOp, ast.Subscript, ast.Load, ast.operator, ast.unaryop, ast.Attribute, ast.Slice)
         if not all(isinstance(x, pure) for x in ast.walk(val)):
-            return None
+            return self.module_table(mod, name, nodes[0], st, fr)
         key = (mod.name, name)
         if key in self._modval_busy:
             return None
@@ -119,6 +121,85 @@ class ExprMixin:
             res = self.ev(val, st, tmp)
             st.envs.pop(tmp.fid, None)
             return res
+        finally:
+            self._modval_busy.discard(key)
+
+    _filled_cache = {}
+
+    def _filled_at_module_level(self, mod, name):
+        key = (id(mod), name)
+        hit = self._filled_cache.get(key)
+        if hit is None:
+            hit = False
+            for n_ in mod.tree.body:
+                if isinstance(n_, (ast.For, ast.While, ast.If, ast.Assign, ast.AugAssign, ast.Expr)):
+                    for x in ast.walk(n_):
+                        if isinstance(x, ast.Subscript) and isinstance(x.ctx, ast.Store) and isinstance(x.value, ast.Name) and x.value.id == name:
+                            hit = True
+            self._filled_cache[key] = hit
+        return hit
+
+    def module_table(self, mod, name, binding, st, fr):
+        """a module-level table: `T = bytearray(n)` / `[0] * n` / `list(..)` followed by top-level `for` loops that fill it
+        (`for v in range(..): T[v] = f(v)`) - the binding and those loops are executed abstractly (they read no input), the table lives on
+        the heap of the current path"""
+        val = binding.value
+        if not (isinstance(val, ast.Call) and isinstance(val.func, ast.Name) and val.func.id in ("bytearray", "list", "bytes")):
+            return None
+        body = mod.tree.body
+        k0 = body.index(binding)
+        fills = []
+        for n_ in body[k0 + 1:]:
+            if isinstance(n_, ast.For) and any(isinstance(x, ast.Subscript) and isinstance(x.ctx, ast.Store) and isinstance(x.value, ast.Name) and x.value.id == name for x in ast.walk(n_)):
+                fills.append(n_)
+            elif any(isinstance(x, ast.Name) and x.id == name and isinstance(x.ctx, ast.Store) for x in ast.walk(n_)):
+                return None       # re-bound later: not a table built once
+        key = (mod.name, name)
+        if key in self._modval_busy:
+            return None
+        self._modval_busy.add(key)
+        try:
+            from .interp import Frame
+            from .model import Ctx
+            fake = self.prog.module_frame_func(mod)
+            tmp = Frame(fake, None, Ctx(self.prog, fake, None), st, {}, fr.depth, None)
+            assign = ast.copy_location(ast.Assign(targets=[ast.Name(id=name, ctx=ast.Store())], value=val), binding)
+            ast.fix_missing_locations(assign)
+            n0 = len(st.trace)
+            res = self.exec_block([assign], st, tmp)
+            if len(res) == 1 and res[0][0] == "next":
+                s0 = res[0][1]
+                cur = s0.envs.get(tmp.fid, {}).get(name)
+                if isinstance(cur, Bytes) and cur.kind == "bytearray":
+                    # `bytearray(n)`: n zero bytes, as an object on the heap so that the filling loops can store into it
+                    n_ = const_of(norm(cur.length()))
+                    cb = self.concrete_bytes(cur, s0)
+                    if cb is None and isinstance(n_, int):
+                        acc = b""
+                        for tag_, ln_ in cur.parts:
+                            l_ = const_of(norm(ln_))
+                            if tag_[0] == "fill" and isinstance(l_, int) and isinstance(tag_[1], int):
+                                acc += bytes([tag_[1]]) * l_
+                            elif tag_[0] == "zeros" and isinstance(l_, int):
+                                acc += bytes(l_)
+                            elif tag_[0] == "const":
+                                acc += tag_[1]
+                            else:
+                                acc = None
+                                break
+                        cb = acc
+                    if isinstance(n_, int) and 0 <= n_ <= 1024 and cb is not None:
+                        s0.envs[tmp.fid][name] = s0.alloc("bytearray", items=[Const(b_) for b_ in cb], label=name)
+                res = self.exec_block(fills, s0, tmp) if fills else res
+            ok = [(k, s, v) for k, s, v in res if k == "next"]
+            if len(ok) != 1 or len(res) != 1:
+                st.envs.pop(tmp.fid, None)
+                return None
+            s1 = ok[0][1]
+            out = s1.envs.get(tmp.fid, {}).get(name)
+            s1.envs.pop(tmp.fid, None)
+            del s1.trace[n0:]             # building the table is not part of the analysed call's history
+            return [(s1, out)] if out is not None else None
         finally:
             self._modval_busy.discard(key)
 
@@ -402,6 +483,9 @@ class ExprMixin:
         if ty_of(a) == "str" or ty_of(b) == "str":
             return Unknown(ty="str")
         if ty_of(a) == "float" or ty_of(b) == "float" or isinstance(op, ast.Div) or isinstance(op, ast.Pow):
+            af = self._affine(op, a, b, st)
+            if af is not None:
+                return af
             return Unknown(deps_of(a) | deps_of(b), ty="float" if not isinstance(op, ast.Pow) else None)
         if isinstance(a, Ref) and a.kind == "list" and isinstance(op, (ast.Mult, ast.Add)):
             la_ = self._list_len(a, st)
@@ -530,6 +614,38 @@ class ExprMixin:
                 return Raised("ZeroDivisionError", node, fr.func if fr else None)
             return Unknown(deps_of(a) | deps_of(b), ty="int")
         return Unknown(deps_of(a) | deps_of(b))
+
+    def _affine(self, op, a, b, st):
+        """scale / offset bookkeeping for float codecs: (float symbol or unpacked integer) x constant + constant stays `base * k + c`
+        (kept in st.extra['affine'] by symbol name), so that an encoder's and a decoder's scale factors can be compared"""
+        if not isinstance(op, (ast.Mult, ast.Add, ast.Sub, ast.Div)):
+            return None
+        x, c, swapped = (a, b, False) if isinstance(b, Const) else ((b, a, True) if isinstance(a, Const) else (None, None, False))
+        if x is None or not isinstance(c.v, (int, float)) or isinstance(c.v, bool) or not isinstance(x, Sym):
+            return None
+        reg = st.extra.get("affine", {})
+        cur = reg.get(x.name)
+        if cur is None:
+            if not (x.ty == "float" or (x.ty == "int" and x.attrs.get("unpack"))):
+                return None
+            cur = (x.name, 1.0, 0.0, ())
+        base, k, off, conv = cur
+        cv = float(c.v)
+        if isinstance(op, ast.Mult):
+            k, off = k * cv, off * cv
+        elif isinstance(op, ast.Div):
+            if swapped or cv == 0:
+                return None
+            k, off = k / cv, off / cv
+        elif isinstance(op, ast.Add):
+            off = off + cv
+        else:
+            k, off = (-k, cv - off) if swapped else (k, off - cv)
+        nm = st.fresh_name("affine")
+        reg = dict(reg)
+        reg[nm] = (base, k, off, conv)
+        st.extra["affine"] = reg
+        return Sym(nm, "float", deps=frozenset(deps_of(x)) | {x.name})
 
     def _list_len(self, r, st):
         cell = st.heap[r.ident]
